@@ -10,6 +10,7 @@ import (
 	"sync"
 	"time"
 	"unicode"
+	"unicode/utf8"
 
 	"github.com/rivo/uniseg"
 )
@@ -197,6 +198,12 @@ func (p *Parser) print(r rune) {
 		w        int
 	)
 	for p.r.Buffered() > 0 {
+		if b, _ := p.r.Peek(p.r.Buffered()); !utf8.FullRune(b) {
+			// The read ended in the middle of a character. Waiting
+			// for its rest here would hold back the grapheme we
+			// already have, and a pending Close
+			break
+		}
 		nextRune, size, _ := p.r.ReadRune()
 		if nextRune == unicode.ReplacementChar && size == 1 {
 			// Invalid UTF-8 is delivered as a raw byte by readRune, it
